@@ -116,8 +116,14 @@ def _child(spec: dict) -> dict:  # noqa: C901, PLR0915, PLR0912
     if spec.get("handlers") == "custom":
 
         def mk(name):
-            def handler(signum, frame):  # pragma: no cover - only SIGWINCH is ever delivered
+            def handler(signum, frame):
                 custom_calls.append(name)
+                if name == "SIGTSTP" and st.get("suspending"):
+                    # stand-in for the process really being stopped: the main thread makes no progress (no alarm fires, no
+                    # input is read) until the driver has delivered SIGCONT -- whose handler runs nested in this loop
+                    end = time.monotonic() + 2.0
+                    while st.get("suspending") and time.monotonic() < end:
+                        time.sleep(0.001)
 
             handler.__name__ = f"app_{name}"
             return handler
@@ -262,6 +268,8 @@ def _child(spec: dict) -> dict:  # noqa: C901, PLR0915, PLR0912
         enter("unhandled", key=key if isinstance(key, str) else list(key))
         s = bump()
         log.append({"site": "ret", "of": "unhandled", "state": s})
+        if key == "S":
+            shell_out("unhandled")
         if isinstance(key, str) and key in SWAP_KEYS:
             loop.widget = spies[SWAP_KEYS[key]]
             log.append({"site": "swap", "to": SWAP_KEYS[key], "by": "unhandled"})
@@ -295,8 +303,15 @@ def _child(spec: dict) -> dict:  # noqa: C901, PLR0915, PLR0912
         def isatty(self):
             return True
 
-    fin = os.fdopen(os.dup(slave), "r", encoding="utf-8", errors="surrogateescape")
-    fout = os.fdopen(os.dup(slave), "w", encoding="utf-8", errors="surrogateescape")
+    if spec.get("fd0"):
+        # the usual application: the terminal IS file descriptors 0 and 1 (Screen() defaults to sys.stdin / sys.stdout)
+        os.dup2(slave, 0)
+        os.dup2(slave, 1)
+        fin = open(0, "r", encoding="utf-8", errors="surrogateescape", closefd=False)  # noqa: SIM115
+        fout = open(1, "w", encoding="utf-8", errors="surrogateescape", closefd=False)  # noqa: SIM115
+    else:
+        fin = os.fdopen(os.dup(slave), "r", encoding="utf-8", errors="surrogateescape")
+        fout = os.fdopen(os.dup(slave), "w", encoding="utf-8", errors="surrogateescape")
     tee = Tee(fout)
     hook = spec.get("hook", True)
     if hook:
@@ -349,11 +364,28 @@ def _child(spec: dict) -> dict:  # noqa: C901, PLR0915, PLR0912
     )
 
     # ---- alarms, watch_pipe, watch_file
+    def shell_out(by: str) -> None:
+        """the shell-out idiom: leave urwid's screen, let something else use the terminal, come back"""
+        log.append({"site": "shell_begin", "by": by})
+        loop.screen.stop()
+        tee.flush()
+        tc_mid = termios.tcgetattr(slave)
+        log.append({"site": "shell_mid", "by": by, "termios_restored": tc_mid == tc_before, "started": bool(loop.screen.started),
+                    "handlers_restored": all(signal.getsignal(sg) is sig_before[nm] or signal.getsignal(sg) == sig_before[nm] for nm, sg in watched.items() if nm != "SIGINT")})
+        os.write(slave, b"$ ls\r\n")
+        loop.screen.start()
+        log.append({"site": "shell_end", "by": by, "started": bool(loop.screen.started), "t": time.monotonic()})
+
     def mk_alarm(n: int, due: float):
         def cb(_loop, _data):
             enter("alarm", n=n, due=due)
             s = bump()
             log.append({"site": "ret", "of": "alarm", "state": s})
+            if n == 0 and spec.get("shell_in_alarm0") and cur["lo"] == 0:
+                if st.get("alarm_step_reached"):
+                    shell_out("alarm")  # the driver is waiting for this alarm: nothing is being typed right now
+                else:
+                    log.append({"site": "shell_skipped", "why": "driver still typing"})
 
         return cb
 
@@ -445,6 +477,9 @@ def _child(spec: dict) -> dict:  # noqa: C901, PLR0915, PLR0912
             if kind == "keys":
                 os.write(master, arg.encode("latin-1"))
                 ok = wait_for(lambda i0=i0: settled(i0, "filter"), STEP_WAIT)
+                if seen_after(i0, "shell_begin") is not None:
+                    # the key made a callback shell out: nobody types into urwid before it is back
+                    ok = wait_for(lambda i0=i0: settled(i0, "shell_end"), STEP_WAIT) and ok
                 log.append({"site": "settled", "n": n, "ok": bool(ok)})
             elif kind == "winch":
                 c2, r2 = arg
@@ -453,6 +488,18 @@ def _child(spec: dict) -> dict:  # noqa: C901, PLR0915, PLR0912
                 log.append({"site": "resized", "size": [c2, r2], "t": time.monotonic()})
                 os.kill(os.getpid(), signal.SIGWINCH)
                 ok = wait_for(lambda i0=i0: settled(i0, "filter"), STEP_WAIT)
+                log.append({"site": "settled", "n": n, "ok": bool(ok)})
+            elif kind == "suspend":
+                # ctrl-z / fg: the application's own SIGTSTP handler (handlers="custom") keeps the process from really stopping
+                st["suspending"] = True
+                os.kill(os.getpid(), signal.SIGTSTP)
+                wait_for(lambda: not screen.started, 0.5)
+                log.append({"site": "suspended", "started": bool(screen.started), "termios_restored": termios.tcgetattr(slave) == tc_before, "t": time.monotonic()})
+                os.kill(os.getpid(), signal.SIGCONT)
+                wait_for(lambda: screen.started, 0.5)
+                st["suspending"] = False
+                ok = wait_for(lambda i0=len(log): screen.started and seen_after(i0, "flush") is not None, STEP_WAIT)
+                log.append({"site": "resumed", "started": bool(screen.started), "t": time.monotonic()})
                 log.append({"site": "settled", "n": n, "ok": bool(ok)})
             elif kind == "burst":
                 # a burst of resizes (the terminal really changes size each time), then a key written WITHOUT waiting for
@@ -479,7 +526,11 @@ def _child(spec: dict) -> dict:  # noqa: C901, PLR0915, PLR0912
                 os.write(file_wr, arg.encode("latin-1"))
                 wait_for(lambda i0=i0: settled(i0, "file"), STEP_WAIT)
             elif kind == "alarm":
+                st["alarm_step_reached"] = True
                 wait_for(lambda arg=arg: settled(lo, "alarm", n=arg), 1.0)
+                ia = seen_after(lo, "alarm", n=arg)
+                if ia is not None and seen_after(ia, "shell_begin") is not None and seen_after(ia, "shell_begin") < ia + 4:
+                    wait_for(lambda ia=ia: settled(ia, "shell_end"), STEP_WAIT)
             elif kind == "split":
                 # one key in two writes: the second only after the loop has read (and could not complete) the first
                 cw = float(spec.get("complete_wait") or 0.125)
@@ -809,9 +860,10 @@ def main() -> None:
         _template(sys.argv[2], float(sys.argv[3]))
         os._exit(0)
     spec = json.loads(sys.argv[1])
+    proto = os.fdopen(os.dup(1), "w")  # the session may put the pty on fd 1
     res = _safe_child(spec)
-    sys.stdout.write(MARK + json.dumps(res) + "\n")
-    sys.stdout.flush()
+    proto.write(MARK + json.dumps(res) + "\n")
+    proto.flush()
     os._exit(0)
 
 
